@@ -104,6 +104,21 @@ GTailOther ==
         /\ Step([act |-> "AddBatchTail", r |-> x[1], i |-> x[2], j |-> x[3], kind |-> ko[1], other |-> ko[2],
                  a |-> Owner, cs |-> <<>>, via |-> via, applied |-> applied'[x[1]]])
 
+\* a list built from a log with a refusable record in place k (and the genuine continuation up to m)
+GBuildTampered ==
+    \E r \in One(Replicas) : \E k \in One(1..(Len(log) + 1)) :
+    \E ko \in One({y \in (TailKinds \ {"unaccepted"}) \X (0..MaxLog) :
+                      TamperEnabledAt(r, k - 1, y[1], y[2], Owner, <<>>) /\ (k = 1 => y[1] = "byte")}) :
+    \E m \in One(IF ko[1] \in ChainKinds THEN k..Len(log) ELSE {k}) :
+        BuildTampered(r, k, m, ko[1], ko[2], Owner, <<>>)
+        /\ Step([act |-> "BuildTampered", r |-> r, k |-> k, m |-> m, kind |-> ko[1], other |-> ko[2],
+                 a |-> Owner, cs |-> <<>>, applied |-> applied[r]])
+GBuildUnaccepted ==
+    \E r \in One(Replicas) : \E k \in One(2..(Len(log) + 1)) : \E y \in One(BadPicks(F(SubSeq(log, 1, k - 1)))) :
+        BuildTampered(r, k, k, "unaccepted", 0, y[1], y[2])
+        /\ Step([act |-> "BuildTampered", r |-> r, k |-> k, m |-> k, kind |-> "unaccepted", other |-> 0,
+                 a |-> y[1], cs |-> y[2], applied |-> applied[r]])
+
 Finish == Len(hist) = MaxSteps /\ ~done /\ done' = TRUE /\ UNCHANGED <<vars, hist>>
 
 \* a disjunct that occurs twice is simply drawn twice as often
@@ -115,6 +130,7 @@ GenNext ==
         \/ GCatchUp \/ GCatchUpHead \/ GAnnounce \/ GAnnounce
         \/ GTamper \/ GTamper \/ GUnaccepted
         \/ GTailUnaccepted \/ GTailUnaccepted \/ GTailOther
+        \/ GBuildTampered \/ GBuildTampered \/ GBuildUnaccepted
   \/ Finish
 
 GenSpec == GenInit /\ [][GenNext]_gvars
